@@ -33,6 +33,7 @@ PROBES = {
     "bad3": "f > lam > a",
     "bad4": "lam > g > a",
     "p16": ("f(a, b)", "g > a"),
+    "p17": "g > g > a",
 }
 ENV = {"f": LW.f, "g": LW.g, "h1": LW.h1, "h2": LW.h2, "lam": (lambda z: z)}
 FNS = {"f": LW.f, "g": LW.g, "h1": LW.h1, "h2": LW.h2}
@@ -93,7 +94,7 @@ def run_case(case):
     ACTIVE_OV.clear()
     probes = {}
     recv = {}
-    used = {op[1] for op in case["ops"] if op[0] in ("act", "deact")}
+    used = {op[1] for op in case["ops"] if op[0] in ("act", "deact")} | {op[2] for op in case["ops"] if op[0] in ("calld", "calle")}
     for pid, text in PROBES.items():
         recv[pid] = []
         if pid not in used:
@@ -162,6 +163,19 @@ def run_case(case):
                     ACTIVE_OV.discard(op[2])
                     probes[op[2]].__exit__(None, None, None)
                     return orig_g(y)
+                LW.g = hook
+                try:
+                    ret = ENV["f"](op[1])
+                finally:
+                    LW.g = orig_g
+            elif op[0] == "calle":
+                # f(v); at the point where f calls g another probe is entered, g runs under it, and the probe is left again
+                orig_g = LW.g
+
+                def hook(y, op=op):
+                    LW.g = orig_g
+                    with probes[op[2]]:
+                        return orig_g(y)
                 LW.g = hook
                 try:
                     ret = ENV["f"](op[1])
